@@ -152,7 +152,7 @@ def has_field(r, field):
 
 def _field_value(r, field):
     """Value of a field named by the selector; like attribute access in an expression, it refuses dunder names."""
-    if field.startswith("__"):
+    if isinstance(field, str) and str.startswith(field, "__"):
         raise InvalidOperation("Invalid field name: {!r}".format(field))
     return getattr(r, field, NONE_OBJECT)
 
